@@ -105,18 +105,40 @@ def tz_supported(family: str) -> bool:
     return family in _DB_CACHE["tz"]
 
 
-def tz_spec(family: str) -> dict:
-    """Register name -> default value (as in the family's TrustZone register specification, latest revision)."""
-    key = ("tzspec", family)
+def tz_spec(family: str, revision: str = "latest") -> dict:
+    """Register name -> default value (as in the family's TrustZone register specification of that revision)."""
+    key = ("tzspec", family, revision)
     if key not in _DB_CACHE:
         from spsdk.utils.database import DatabaseManager, get_db
 
-        _DB_CACHE[key] = DatabaseManager().db.load_db_cfg_file(get_db(family, "latest").get_file_path("tz", "reg_spec"))
+        _DB_CACHE[key] = DatabaseManager().db.load_db_cfg_file(get_db(family, revision).get_file_path("tz", "reg_spec"))
     return _DB_CACHE[key]
 
 
-def tz_size(family: str) -> int:
-    return 4 * len(tz_spec(family)) if tz_supported(family) else 0
+def tz_size(family: str, revision: str = "latest") -> int:
+    return 4 * len(tz_spec(family, revision)) if tz_supported(family) else 0
+
+
+def tz_revisions() -> list:
+    """(family, revision) pairs whose TrustZone register set differs from the one of the latest revision."""
+    if "tzrevs" not in _DB_CACHE:
+        from spsdk.utils.database import DatabaseManager, get_families
+
+        out = []
+        mbi = set(get_families("mbi"))
+        for fam in sorted(get_families("tz")):
+            if fam not in mbi:
+                continue
+            latest = list(tz_spec(fam, "latest").keys())
+            for rev in DatabaseManager().db.devices.get(fam).revisions.revision_names():
+                try:
+                    names = list(tz_spec(fam, rev).keys())
+                except Exception:  # pylint: disable=broad-except
+                    continue
+                if names != latest:
+                    out.append((fam, rev))
+        _DB_CACHE["tzrevs"] = out
+    return _DB_CACHE["tzrevs"]
 
 
 def isk_limits(family: str):
@@ -140,7 +162,7 @@ def schema_properties(family: str, info: dict) -> set:
     return _DB_CACHE[key]
 
 
-def rom_profile(family: str, info: dict):
+def rom_profile(family: str, info: dict, revision: str = "latest"):
     """The device knowledge the ROM model needs for this (family, class) - derived from the mixin list."""
     from vf.refs import mbi_rom
 
@@ -154,7 +176,7 @@ def rom_profile(family: str, info: dict):
     cert = "v1" if m(mx, "MixinCertBlockV1") else ("v21" if m(mx, "MixinCertBlockV21") else None)
     manifest = "crc" if m(mx, "MixinManifestCrc") else ("digest" if m(mx, "MixinManifestDigest") else None)
     hm = (info["image_type"],) if (m(mx, "MixinHmacMandatory") or m(mx, "MixinHmac")) else ()
-    return mbi_rom.Profile("ivt", cert=cert, hmac_types=hm, manifest=manifest, tz_size=tz_size(family))
+    return mbi_rom.Profile("ivt", cert=cert, hmac_types=hm, manifest=manifest, tz_size=tz_size(family, revision))
 
 
 # ------------------------------------------------------------------------------- the record
@@ -163,6 +185,7 @@ class Built:
 
     def __init__(self):
         self.family = ""
+        self.revision = "latest"
         self.info: dict = {}
         self.dir = ""
         self.cfg: dict = {}
@@ -183,7 +206,7 @@ class Built:
         return m(self.info["mixins"], name)
 
     def describe(self) -> dict:
-        d = {"family": self.family, "target": self.info["target"], "auth": self.info["auth"], "cls": self.info["cls"],
+        d = {"family": self.family, "revision": self.revision, "target": self.info["target"], "auth": self.info["auth"], "cls": self.info["cls"],
              "payload_class": self.payload_class, "app_len": len(self.app)}
         d.update({k: (core.hx(v, 24) if isinstance(v, (bytes, bytearray)) else v) for k, v in self.opts.items()
                   if k not in ("reloc", "tz_bytes", "key_store")})
@@ -406,9 +429,9 @@ def cert_vx(rng, d: str, want: dict) -> tuple[dict, dict, str]:
 
 
 # -------------------------------------------------------------------------------- TrustZone
-def tz_preset(rng, family: str, d: str, form: Optional[str] = None):
+def tz_preset(rng, family: str, d: str, form: Optional[str] = None, revision: str = "latest"):
     """Write a custom preset (YAML with a few random registers, or a complete binary).  Returns (path, expected bytes)."""
-    spec = tz_spec(family)
+    spec = tz_spec(family, revision)
     names = list(spec.keys())
     from spsdk.utils.misc import value_to_int
 
@@ -423,7 +446,7 @@ def tz_preset(rng, family: str, d: str, form: Optional[str] = None):
             values[n] = v
             customs[n] = rng.choice([hex(v), v, f"0x{v:08X}"])
         path = os.path.join(d, "tz_preset.yaml")
-        _dump_yaml(path, {"family": family, "revision": "latest", "trustZonePreset": customs})
+        _dump_yaml(path, {"family": family, "revision": revision, "trustZonePreset": customs})
     else:
         for n in names:
             if rng.random() < 0.5:
@@ -440,6 +463,7 @@ def build(family: str, info: dict, rng, workdir: str, tier: str = "quick", want:
     want = dict(want or {})
     b = Built()
     b.family, b.info = family, info
+    b.revision = want.get("revision", "latest")
     mx = info["mixins"]
     props = schema_properties(family, info)
     d = os.path.join(workdir, f"{family}_{info['target']}_{info['auth']}_{rng.getrandbits(40):010x}")
@@ -451,6 +475,8 @@ def build(family: str, info: dict, rng, workdir: str, tier: str = "quick", want:
         "outputImageAuthenticationType": want.get("auth_label") or rng.choice(AUTH_LABEL[info["auth"]]),
         "masterBootOutputFile": os.path.join(d, "mbi.bin"),
     }
+    if b.revision != "latest":
+        cfg["revision"] = b.revision
     o: dict = {}
     sig: list = []
 
@@ -558,7 +584,7 @@ def build(family: str, info: dict, rng, workdir: str, tier: str = "quick", want:
             if not mandatory or rng.random() < 0.5:
                 cfg["enableTrustZone"] = True
             if mode == "custom":
-                path, tzb = tz_preset(rng, family, d, want.get("tz_form"))
+                path, tzb = tz_preset(rng, family, d, want.get("tz_form"), b.revision)
                 cfg["trustZonePresetFile"] = path
                 o["tz_bytes"] = tzb
         o["tz"] = mode
